@@ -17,9 +17,15 @@ use avh::prng::Rng;
 use std::io::Write;
 use std::panic::{catch_unwind, AssertUnwindSafe};
 use std::sync::Mutex;
-use std::time::Instant;
 
 static LAST_PANIC: Mutex<String> = Mutex::new(String::new());
+
+/// CPU time of this thread in milliseconds (wall-clock would raise false alarms on a loaded machine)
+fn cpu_ms() -> u128 {
+    let mut ts = libc::timespec { tv_sec: 0, tv_nsec: 0 };
+    unsafe { libc::clock_gettime(libc::CLOCK_THREAD_CPUTIME_ID, &mut ts) };
+    (ts.tv_sec as u128) * 1000 + (ts.tv_nsec as u128) / 1_000_000
+}
 
 fn repo() -> String {
     std::env::var("VERIF_REPO").unwrap_or_else(|_| "/repo".to_string())
@@ -172,7 +178,7 @@ fn run_case(input: &str) -> String {
         .filter(|s| !s.is_empty())
         .filter_map(|h| u32::from_str_radix(h, 16).ok().and_then(char::from_u32))
         .collect();
-    let t0 = Instant::now();
+    let t0 = cpu_ms();
     let res = catch_unwind(AssertUnwindSafe(|| {
         let fd = match ReadScope::new(&data).read::<FontData<'_>>() {
             Ok(f) => f,
@@ -207,7 +213,7 @@ fn run_case(input: &str) -> String {
         }
         format!("run:{}:{}:{}:{}", infos.len(), maxgid, status, flags.join("+"))
     }));
-    let ms = t0.elapsed().as_millis();
+    let ms = cpu_ms() - t0;
     match res {
         Ok(s) => {
             if ms > 5000 {
